@@ -20,6 +20,7 @@ Det ==
   \cup {St(op, [e |-> e, shape |-> <<>>, hasShape |-> FALSE]) :
           op \in {"tendiag", "sptendiag"}, e \in {<<5>>, <<1, 2>>, <<1, 0 - 2, 3>>}}
   \cup {St("teneye", [m |-> m, n |-> n]) : m \in {2, 4}, n \in 1..3}
+  \cup {St("teneye", [m |-> 6, n |-> n]) : n \in 1..2}
   \cup {St("from_function_ktensor", [shape |-> s, R |-> R]) : s \in ShapesG, R \in 1..2}
 
 \* every subscript list with <= 4 rows over a 2x2 (x2) grid, arbitrary multiplicities, any order
